@@ -925,6 +925,9 @@ class PDFDocument:
             raise PDFKeyError((cat, key))
         # may raise KeyError
         d0 = dict_value(names[cat])
+        if not isinstance(key, bytes):
+            # The keys of a name tree are (byte) strings; a name cannot be one.
+            raise PDFKeyError((cat, key))
 
         def lookup(d: Dict[str, Any]) -> Any:
             if "Limits" in d:
